@@ -20,25 +20,31 @@ pub fn exec_request(net: &Net, st: &StepRecord, ast: &Value) -> Value {
 fn sorted(v: &Value) -> Vec<String> { let mut x: Vec<String> = v.as_array().map(|a| a.iter().map(|s| s.as_str().unwrap_or("").to_string()).collect()).unwrap_or_default(); x.sort(); x.dedup(); x }
 
 /// compares the model's answer with the real outcome; returns the name of the first differing field
-pub fn compare_exec(m: &Value, net: &Net, st: &StepRecord) -> Option<String> {
+pub fn compare_exec(m: &Value, net: &Net, st: &StepRecord) -> Option<String> { compare_exec_projected(m, net, st, &["code", "msg", "trace", "lcid", "next", "requests", "stores"]) }
+
+/// compares only the observables named in `fields` (the projection of a property)
+pub fn compare_exec_projected(m: &Value, net: &Net, st: &StepRecord, fields: &[&str]) -> Option<String> {
     let o = &st.outcome;
-    if m["code"].as_i64() != Some(o.ret_code) { return Some(format!("code: model {} vs implementation {}", m["code"], o.ret_code)); }
+    let on = |f: &str| fields.contains(&f);
+    if on("code") && m["code"].as_i64() != Some(o.ret_code) { return Some(format!("code: model {} vs implementation {}", m["code"], o.ret_code)); }
     let uncatchable = (20000..=29999).contains(&o.ret_code);
     if uncatchable { return None; }
-    if o.ret_code != 30000 && m["msg"].as_str() != Some(o.error_message.as_str()) { return Some(format!("message: model {:?} vs implementation {:?}", m["msg"], o.error_message)); }
+    if m["code"].as_i64() != Some(o.ret_code) { return None; } // outcomes of different kinds: only the code projection can speak
+    if on("msg") && o.ret_code != 30000 && m["msg"].as_str() != Some(o.error_message.as_str()) { return Some(format!("message: model {:?} vs implementation {:?}", m["msg"], o.error_message)); }
     let f = match facts(&o.data) { Some(f) => f, None => return Some("implementation data does not decode".into()) };
     let real_trace = &f.json["data"]["trace"];
-    if &m["trace"] != real_trace {
+    if on("trace") && &m["trace"] != real_trace {
         let (a, b) = (m["trace"].as_array().cloned().unwrap_or_default(), real_trace.as_array().cloned().unwrap_or_default());
         let i = a.iter().zip(b.iter()).position(|(x, y)| x != y).unwrap_or(a.len().min(b.len()));
         return Some(format!("trace differs at {i}: model {} vs implementation {} (lengths {} / {})", a.get(i).unwrap_or(&Value::Null), b.get(i).unwrap_or(&Value::Null), a.len(), b.len()));
     }
-    if m["lcid"].as_u64() != Some(f.lcid) { return Some(format!("last call request id: model {} vs implementation {}", m["lcid"], f.lcid)); }
+    if on("lcid") && m["lcid"].as_u64() != Some(f.lcid) { return Some(format!("last call request id: model {} vs implementation {}", m["lcid"], f.lcid)); }
     let mut next = o.next_peer_pks.clone(); next.sort(); next.dedup();
-    if sorted(&m["next"]) != next { return Some(format!("next peers: model {:?} vs implementation {:?}", sorted(&m["next"]), next)); }
+    if on("next") && sorted(&m["next"]) != next { return Some(format!("next peers: model {:?} vs implementation {:?}", sorted(&m["next"]), next)); }
     // requests
     let reqs = decode_requests(&o.call_requests).unwrap_or_default();
     let mreqs = m["requests"].as_object().cloned().unwrap_or_default();
+    if !on("requests") { return stores_cmp(m, &f, on("stores")); }
     if reqs.len() != mreqs.len() { return Some(format!("number of call requests: model {} vs implementation {}", mreqs.len(), reqs.len())); }
     for (id, r) in &reqs {
         let mr = match mreqs.get(&id.to_string()) { Some(x) => x, None => return Some(format!("request id {id} missing in the model")) };
@@ -48,11 +54,16 @@ pub fn compare_exec(m: &Value, net: &Net, st: &StepRecord) -> Option<String> {
         if mr["args"] != args { return Some(format!("request {id}: arguments: model {} vs implementation {}", mr["args"], args)); }
         if mr["tetraplets"] != tets { return Some(format!("request {id}: tetraplets: model {} vs implementation {}", mr["tetraplets"], tets)); }
     }
+    let _ = net;
+    stores_cmp(m, &f, on("stores"))
+}
+
+fn stores_cmp(m: &Value, f: &Facts, on: bool) -> Option<String> {
+    if !on { return None; }
     for (name, store) in [("values", "value_store"), ("tetraplets", "tetraplet_store"), ("service_results", "service_result_store")] {
         let mut real: Vec<String> = f.store(store).as_object().map(|o| o.keys().cloned().collect()).unwrap_or_default(); real.sort();
         if sorted(&m[name]) != real { return Some(format!("{store} keys differ: model {} vs implementation {}", sorted(&m[name]).len(), real.len())); }
     }
-    let _ = net;
     None
 }
 
